@@ -10,6 +10,7 @@ rows = []
 # what happened the very first time, for the changes whose meta.json was rewritten by a later re-run
 FIRST = json.load(open(os.path.join(ROOT, "seeded", "first_pass.json")))
 n = first_conc = first_noinput = now_conc = now_noinput = now_missed = 0
+lean_seen = lean_total = 0
 for f in sorted(glob.glob(os.path.join(ROOT, "seeded", "*", "meta.json"))):
     m = json.load(open(f))
     name = os.path.basename(os.path.dirname(f))
@@ -57,11 +58,32 @@ for f in sorted(glob.glob(os.path.join(ROOT, "seeded", "*", "meta.json"))):
     else:
         now_missed += 1
         how = "MISSED"
-    rows.append("| %s | %s | %s | %s |" % (name, title.replace("|", "/"), first, how[:90].replace("|", "/")))
-table = "| seeded | what it is | first run | current machinery (`./check %s`) |\n|---|---|---|---|\n" % "<id>" + "\n".join(rows)
+    # what the Lean layer alone says about the change (bridges / agreement theorems / generated constants that no
+    # longer check), independently of whether a generator reached a failing input
+    ob = (rc or {}).get("obligations_broken")
+    if ob is None:
+        lean = "?"
+    else:
+        lean_total += 1
+        names = []
+        for o in ob:
+            o = o.split(":", 1)[-1].strip()
+            o = re.sub(r"^bridge_", "bridge ", o)
+            names.append(o)
+        names = sorted(set(names))
+        if names:
+            lean_seen += 1
+        lean = ", ".join(names)[:110] if names else "—"
+    rows.append("| %s | %s | %s | %s | %s |" % (name, title.replace("|", "/"), first, how[:90].replace("|", "/"), lean.replace("|", "/")))
+table = "| seeded | what it is | first run | current machinery (`./check %s`) | obligations of the Lean layer that no longer check |\n|---|---|---|---|---|\n" % "<id>" + "\n".join(rows)
 summary = ("%d confirmed seeded changes. First run of the property's check against each: %d VIOLATION with a concrete failing input, "
            "%d VIOLATION no-failing-input-found, %d missed. Current machinery (latest `tools/seedcheck.py` run): %d with a concrete failing "
            "input, %d no-failing-input-found, %d missed." % (n, first_conc, first_noinput, n - first_conc - first_noinput, now_conc, now_noinput, now_missed))
+if lean_total:
+    summary += (" Independently of any failing input, %d of the %d changes re-run with the round-5 machinery break at least one obligation of the "
+                "Lean layer (a bridge `@Rs.f = @RsBase.f`, an agreement theorem, a generated constant or table, the type inventory); "
+                "the others change code that is not translated (string parsers and printers, `linked_list.rs`) or are written in a "
+                "construct outside the translator's subset (the function keeps its baseline text: `GEN-DEGRADED`)." % (lean_seen, lean_total))
 p = os.path.join(ROOT, "DESIGN.md")
 s = open(p, encoding="utf-8").read()
 block = "<!-- SEEDED-TABLE-BEGIN -->\n" + summary + "\n\n" + table + "\n<!-- SEEDED-TABLE-END -->"
